@@ -691,6 +691,15 @@ func genSel(r *rng) [][]selTerm {
 		sel = append(sel, []selTerm{term()})
 	}
 
+	// an alternative without terms (WithLabelQuery() with no options): it matches everything, so the selector does
+	if r.chance(1, 8) {
+		if r.chance(1, 2) {
+			sel = append(sel, []selTerm{})
+		} else {
+			sel = append([][]selTerm{{}}, sel...)
+		}
+	}
+
 	return sel
 }
 
